@@ -23,7 +23,7 @@ RULE = (
     "simulate; interpolator probes. Non-trivial = the field developed a gradient > 1e-3 R; "
     "distinct = descriptor hash."
 )
-MIN_NONTRIVIAL = {"quick": 100, "thorough": 2000}
+MIN_NONTRIVIAL = {"quick": 100, "thorough": 5000}
 SHARDS = {"quick": 2, "thorough": 16}
 GENERATOR = {"shifts": "dyadic: integers in [-2^20, 2^20]; general: +-10^U(-3, 6)", "nx": [3, 5, 10, 30, 80], "nt": [2, 5, 12, 40, 120]}
 ASSUMPTIONS = [
@@ -38,7 +38,7 @@ def setup(ck):
 
 def generate(ck):
     rng = ck.rng
-    n = 140 if ck.tier == "quick" else 2800
+    n = 140 if ck.tier == "quick" else 8000
     descs = []
     for i in range(n):
         d = sim.random_sim_desc(rng, ck.tier, single_share=0.7, nx_choices=(3, 5, 10, 30, 80), families=("uniform", "quadratic", "geometric", "sorted-random", "mixed"))
